@@ -413,7 +413,17 @@ func r1r2r3(c *core.Ctx, rre, big, ql *core.Fn) {
 				after = true
 			}
 		}
-		routes = append(routes, route{"restore", &ast.BlockStmt{List: rest, Lbrace: thr.End(), Rbrace: body.Rbrace}})
+		var region ast.Node = &ast.BlockStmt{List: rest, Lbrace: thr.End(), Rbrace: body.Rbrace}
+		rn := restore[0].Node()
+		if thr.Else != nil && thr.Else.Pos() <= rn.Pos() && rn.End() <= thr.Else.End() {
+			region = thr.Else // written as the final else of the route chain
+		} else if !(region.Pos() <= rn.Pos() && rn.End() <= region.End()) {
+			c.Undecidedf("R3.policy", "restore/region", rn.Pos(), "the RESTORE call is neither after the big-key arm nor in its else branch: the extent of the RESTORE route is not recognised")
+			region = nil
+		}
+		if region != nil {
+			routes = append(routes, route{"restore", region})
+		}
 	}
 	for _, r := range routes {
 		arms, rep := policyEntries(info, g, r.region)
@@ -730,11 +740,19 @@ func r4r5(c *core.Ctx, big, ql, fl *core.Fn) {
 			for i, ch := range ex.args {
 				wantObj := reads[int(ch-'1')]
 				arg := ast.Unparen(send.Args[2+i])
-				// the score may be rendered through a formatting helper
-				if call, ok := arg.(*ast.CallExpr); ok && len(call.Args) == 1 {
-					arg = ast.Unparen(call.Args[0])
-				}
 				id, ok := arg.(*ast.Ident)
+				for guard := 0; guard < 4 && !(ok && core.ObjOf(info, id) == wantObj); guard++ {
+					// a temporary evaluated once stands for its definition; the score may be
+					// rendered through a formatting helper
+					if d := pat.DefOf(info, arg); d != nil {
+						arg = ast.Unparen(d)
+					} else if call, isCall := arg.(*ast.CallExpr); isCall && len(call.Args) == 1 {
+						arg = ast.Unparen(call.Args[0])
+					} else {
+						break
+					}
+					id, ok = arg.(*ast.Ident)
+				}
 				if !ok || core.ObjOf(info, id) != wantObj {
 					okOrder = false
 				}
@@ -840,11 +858,40 @@ func checkBatch(c *core.Ctx, info *types.Info, key string, region ast.Node, loop
 		bound = be.Y
 		cb["_i"] = be.X
 	}
+	// the flush condition is a disjunction: each of `count == 100` and `i == n-1` must
+	// be one of its disjuncts (under && the batch is flushed only when both hold)
+	var disjuncts func(e ast.Expr) []ast.Expr
+	disjuncts = func(e ast.Expr) []ast.Expr {
+		e = ast.Unparen(e)
+		if be, ok := e.(*ast.BinaryExpr); ok && be.Op == token.LOR {
+			return append(disjuncts(be.X), disjuncts(be.Y)...)
+		}
+		if id, ok := e.(*ast.Ident); ok {
+			if d := pat.DefOf(info, id); d != nil {
+				if be, isBin := ast.Unparen(d).(*ast.BinaryExpr); isBin && be.Op == token.LOR {
+					return disjuncts(d)
+				}
+			}
+		}
+		return []ast.Expr{e}
+	}
+	hasDisjunct := func(cond ast.Expr, p *pat.Pattern, b pat.Binds) bool {
+		for _, d := range disjuncts(cond) {
+			if p.Match(info, d, b) != nil {
+				return true
+			}
+		}
+		return false
+	}
 	flushIf := findIf(info, loop.Body, func(cond ast.Expr) bool {
 		n, _ := pat.Expr("_count == 100").Find(info, cond, cb)
 		return n != nil
 	})
 	okFlush := false
+	if flushIf != nil && !hasDisjunct(flushIf.Cond, pat.Expr("_count == 100"), cb) {
+		c.Check("R5.batch", key+"/flush-at-100", flushIf.Pos(), false, "a full batch of 100 must be flushed whatever else holds: `count == 100` has to be a disjunct of the flush condition (under && a full batch is kept and keeps growing)")
+		return
+	}
 	if flushIf != nil {
 		f1, _ := pat.Stmt("flushAndCheckReply(_c, _count)").Find(info, flushIf.Body, cb)
 		f2, _ := pat.Stmt("_count = 0").Find(info, flushIf.Body, cb)
@@ -872,7 +919,7 @@ func checkBatch(c *core.Ctx, info *types.Info, key string, region ast.Node, loop
 			for k, v := range cb {
 				b2[k] = v
 			}
-			if n, _ := pat.Expr(cand).Find(info, flushIf.Cond, b2); n != nil {
+			if hasDisjunct(flushIf.Cond, pat.Expr(cand), b2) {
 				okLast = true
 			}
 		}
